@@ -893,7 +893,7 @@ def e_skr(g):
 
 def _nnls_problem(g, r=None, c=None):
     rs = g.rs()
-    r = r or g.choice([3, 2, 4])
+    r = r or g.choice([3, 2, 4, 1])  # incl. single-component problems
     c = c or g.choice([4, 1, 3])
     U = rs.random_sample((6, r))
     M = rs.random_sample((6, c)) - 0.2
@@ -1440,6 +1440,8 @@ def e_metrics(g, which):
         a = rs.random_sample((4, 4))
         m = g.arr((4, 4), rs=rs, signed=False, kinds=("c", "f", "slice"))
         m[...] = a @ a.T / np.trace(a @ a.T)
+        if g.flag(0.4):
+            m[0, 1] += 1e-17 + abs(m[0, 1]) * 1e-16  # symmetric only up to rounding, as products like (Q*p) @ Q.T are
         return dict(fn=M.vonneumann_entropy, kwargs=dict(tensor=m))
     if which == "cp_vonneumann_entropy":
         from tensorly.cp_tensor import CPTensor
